@@ -105,6 +105,10 @@ pub struct Cfg {
     /// self-waking children start dormant (see Op::Unleash)
     pub dormant: bool,
     pub up_modes: [Mode; 2],
+    /// polls performed right after construction, before the explored history starts
+    pub pre_polls: usize,
+    /// how many cloned wakers the environment may hold at once
+    pub pool_max: usize,
 }
 
 impl Cfg {
@@ -129,6 +133,8 @@ impl Cfg {
             focus: None,
             dormant: false,
             up_modes: [Mode::Gate, Mode::Ready],
+            pre_polls: 0,
+            pool_max: 2,
         }
     }
     pub fn limit(&self) -> usize {
@@ -325,7 +331,7 @@ impl<'a> Run<'a> {
                     } else if cfg.ops & ops::STALE_WAKE != 0 {
                         m.push((Op::StaleWake(id), costly(ops::STALE_WAKE)));
                     }
-                    if cfg.ops & ops::WAKER_POOL != 0 && self.pool.len() < 2 {
+                    if cfg.ops & ops::WAKER_POOL != 0 && self.pool.len() < cfg.pool_max {
                         m.push((Op::CloneWaker(id), costly(ops::WAKER_POOL)));
                     }
                     if cfg.ops & ops::WAKER_POOL != 0 {
@@ -1386,7 +1392,7 @@ pub fn install_probes() {
 fn free_deferred() {
     let blocks: Vec<(usize, usize, usize, u32, Vec<u8>)> = w(|w| w.blocks.drain(..).map(|b| (b.base, b.size, b.align, b.released, b.snapshot)).collect());
     for (base, size, align, released, snap) in blocks {
-        if released >= 1 && align != 0 {
+        if released >= 1 && align != 0 && !cfg!(miri) {
             let bytes = unsafe { std::slice::from_raw_parts(base as *const u8, size) };
             if let Some(off) = (0..size.min(snap.len())).find(|&i| bytes[i] != snap[i]) {
                 let v = bytes[off];
@@ -1558,6 +1564,10 @@ fn run_inner(cfg: &Cfg, prefix: &[u8], log_on: bool) -> ExecResult {
             return;
         }
         run.post_op();
+        for _ in 0..cfg.pre_polls {
+            run.do_poll(false);
+            run.post_op();
+        }
         // history
         loop {
             if run.top_ops >= cfg.depth {
